@@ -430,8 +430,37 @@ func ruleBlockKey(c *Ctx, r *Report, rule string) {
 				return true
 			})
 		}
-		ok := got[`"TYPE"`] == "<vm>.blockStack[blockTos-1].Type" && got[`"NAME"`] == "<vm>.blockStack[blockTos-1].Name"
-		r.check(ok, rule, "pseudo-fields", "TYPE/NAME read blockStack[blockTos-1]", fmt.Sprintf("TYPE and NAME must read the innermost block's Type and Name (found %v)", got), "")
+		// the pseudo-field switch comes before any scan of the open blocks
+		first := true
+		for _, root := range roots {
+			var swPos, loopPos token.Pos
+			ast.Inspect(root, func(n ast.Node) bool {
+				switch n := n.(type) {
+				case *ast.SwitchStmt:
+					for _, a := range c.switchArms(n) {
+						for _, v := range a.Vals {
+							if v != nil && (v.ExactString() == `"TYPE"` || v.ExactString() == `"NAME"`) && swPos == 0 {
+								swPos = n.Pos()
+							}
+						}
+					}
+				case *ast.ForStmt:
+					if loopPos == 0 {
+						loopPos = n.Pos()
+					}
+				case *ast.RangeStmt:
+					if loopPos == 0 {
+						loopPos = n.Pos()
+					}
+				}
+				return true
+			})
+			if swPos != 0 && loopPos != 0 && loopPos < swPos {
+				first = false
+			}
+		}
+		ok := got[`"TYPE"`] == "<vm>.blockStack[blockTos-1].Type" && got[`"NAME"`] == "<vm>.blockStack[blockTos-1].Name" && first
+		r.check(ok, rule, "pseudo-fields", "TYPE/NAME read blockStack[blockTos-1], before any field lookup", fmt.Sprintf("TYPE and NAME must read the innermost block's Type and Name before any field of that spelling is looked up (found %v, pseudo-fields first: %v)", got, first), "")
 	}
 	// block name: unquoted string literal
 	if _, fd := c.find("blockStmt"); fd == nil {
